@@ -7,7 +7,7 @@ Import ListNotations RecordSetNotations.
 Lemma inv5_init : Inv5 init_stream.
 Proof. constructor; unfold fail_pending, sink_told; cbn; auto; try discriminate; try congruence. Qed.
 
-Ltac fin5 := solve [intuition (try discriminate; try congruence)].
+Ltac fin5 := solve [intuition (try discriminate; try congruence; try lia)].
 
 Lemma inv5_step s a e s' : Inv1 s -> Inv5 s -> step_stream s a e = Some s' -> Inv5 s'.
 Proof.
